@@ -567,8 +567,15 @@ def generate(rng, prefix="", n_funcs=None, with_main=True, rich=True):
         if kvals and rng.random() < 0.7:
             lines.append("acc = (acc + %s) %% %d;" % (rng.choice(sorted(kvals)), MOD))
         lines.append('print!("checksum ", acc, "\\n");')
-        lines.append("return: (acc % 251) as u8")
-        body, head = _fn("main", "", "u8", lines)
+        if rng.random() < 0.12:
+            # a `main` without a return type: what the program's exit status is then, it is the same
+            # however the program is split, ordered and built (the last thing main does is a print, or arithmetic)
+            if rng.random() < 0.5:
+                lines.append("acc = (acc * 3 + %d) %% %d;" % (rng.randint(1, 9), MOD))
+            body, head = _fn("main", "", None, lines)
+        else:
+            lines.append("return: (acc % 251) as u8")
+            body, head = _fn("main", "", "u8", lines)
         P.add(Item("main", "fn", body, head, ("main",)))
     return P.finish()
 
